@@ -3,7 +3,7 @@ CONSTANTS
   Names <- NamesAB
   MaxDepth = 3
   SetLevels = {1, 6}
-  RootLevels = {3}
+  RootLevels = {1}
   Objs = {1, 2}
   MaxSets = 2
   MaxOps = 3
